@@ -814,6 +814,18 @@ package badger
 //@   assert[tested-against-all-prefixes] before call containsAnyPrefixes : arg0 == table && arg1 == prefixes
 //@   assert[level0-with-same-prefixes] before call doCompact : arg2.dropPrefixes == prefixes && arg2.level == 0
 
+// DB.close: writers are stopped before the active memtable is handed to the flusher; the
+// flusher and compactions are stopped before the value log, the levels and the MANIFEST are
+// closed; the directories are synced last.
+//@ func (*DB).close
+//@   props C07 C08
+//@   light
+//@   assert[writers-stopped-before-last-flush] before call Empty : called(SignalAndWait#2)
+//@   assert[flush-done-before-value-log-closes] before call Close#1 : called(stopMemoryFlush#1) && called(stopCompactions#1) && arg0 == db.vlog
+//@   assert[levels-closed-after-value-log] before call close#2 : called(Close#1) && arg0 == db.lc
+//@   assert[manifest-closed-after-levels] before call close#4 : called(close#2) && arg0 == db.manifest
+//@   assert[directories-synced-last] before call syncDir#1 : called(close#4) && arg1 == db.opt.Dir
+
 // ---- what a re-open reads (C07) ----
 
 // Every table listed in the MANIFEST is opened with the compression and the data key recorded
